@@ -91,31 +91,25 @@ pub fn canon_for(name: &str, reply: Option<&[u8]>, tcp: bool) -> String {
         }
         return format!("rpc:{}", hex(&b[..keep]));
     } else if name.starts_with("dns") {
-        // header + questions verbatim; per answer: owner/type/class/ttl, RDLENGTH + RDATA masked
+        // everything verbatim except the exempted field, which is masked by its context: every
+        // "TTL 43200, RDLENGTH, RDATA" group (RDLENGTH 4 + address over IPv4, 0 and nothing over
+        // IPv6).  (Walking the names as label sequences is not robust: the responder echoes
+        // names of requests whose labels are not well-formed.)
         if m.len() >= 12 {
-            let qd = u16::from_be_bytes([m[4], m[5]]) as usize;
-            let mut i = 12;
-            for _ in 0..qd {
-                while i < m.len() && m[i] != 0 {
-                    i += 1 + m[i] as usize;
+            let ttl = [0x00u8, 0x00, 0xa8, 0xc0];
+            let mut out = String::from("dns:");
+            let mut k = 0;
+            while k < m.len() {
+                if k + 6 <= m.len() && m[k..k + 4] == ttl {
+                    let rdl = u16::from_be_bytes([m[k + 4], m[k + 5]]) as usize;
+                    if (rdl == 4 || rdl == 0) && k + 6 + rdl <= m.len() {
+                        out.push_str("[ttl-rd]");
+                        k += 6 + rdl;
+                        continue;
+                    }
                 }
-                i += 5;
-            }
-            let i = i.min(m.len());
-            let mut out = format!("dns:{}", hex(&m[..i]));
-            let mut j = i;
-            while j < m.len() {
-                let s = j;
-                while j < m.len() && m[j] != 0 {
-                    j += 1 + m[j] as usize;
-                }
-                j += 1 + 8; // root + type class ttl
-                if j + 2 > m.len() {
-                    break;
-                }
-                out.push_str(&format!("|{}", hex(&m[s..j])));
-                let rdl = u16::from_be_bytes([m[j], m[j + 1]]) as usize;
-                j += 2 + rdl;
+                out.push_str(&format!("{:02x}", m[k]));
+                k += 1;
             }
             return out;
         }
@@ -208,6 +202,76 @@ pub fn run(rep: &mut Report, thorough: bool) {
         &mut rep.sink,
     );
     rep.stage("udp-ports", "UDP payloads x {v4,v6} x 4 port sweeps x 65536 points", product(&dims), t0);
+    // IP-version differential over the request space: each base payload x every 16-bit word
+    // position (both alignments) x a value set, sent over IPv4 and over IPv6: answered-or-not and
+    // the canonical answer agree (a record type, a flag, a size that one IP version's path treats
+    // differently)
+    {
+        let t0 = std::time::Instant::now();
+        let names = ["http-get", "ssh-2", "ghost", "stun-classic-change-port", "stun-magic-attrs", "smb2-negotiate", "rpc-udp-getaddr", "rpc-udp-dump", "dns-a", "dns-txt-ch"];
+        let bases: Vec<&Payload> = udp_sel.iter().filter(|p| thorough || names.contains(&p.name)).cloned().collect();
+        let mut vals: Vec<u16> = if thorough { (0..=0xffffu32).map(|v| v as u16).collect() } else { (0..512u16).collect() };
+        if !thorough {
+            for k in 0..256u16 {
+                vals.push(k << 8);
+                vals.push((k << 8) | 0xff);
+            }
+            vals.extend(crate::deviate::EDGE16.iter().map(|v| *v as u16));
+            let sw: Vec<u16> = vals.iter().map(|v| v.swap_bytes()).collect();
+            vals.extend(sw);
+            vals.sort();
+            vals.dedup();
+        }
+        let mut plan: Vec<(usize, usize)> = Vec::new();
+        for (bi, b) in bases.iter().enumerate() {
+            for p in 0..b.bytes.len().saturating_sub(1).min(if thorough { 64 } else { 4096 }) {
+                plan.push((bi, p));
+            }
+        }
+        let nv = vals.len() as u64;
+        let total = plan.len() as u64 * nv;
+        let f4 = flow4(40000, 80);
+        let f6 = flow6(40000, 80);
+        let opts = RunOpts::new("version-differential-words").no_monitor();
+        let cfgv = cfg.clone();
+        engine::run(
+            &cfg,
+            total,
+            &opts,
+            |i| {
+                let (bi, p) = plan[(i / nv) as usize];
+                let v = vals[(i % nv) as usize];
+                let mut m = bases[bi].bytes.clone();
+                m[p] = (v >> 8) as u8;
+                m[p + 1] = v as u8;
+                vec![Cmd::Frame(f4.udp(&m)), Cmd::Frame(f6.udp(&m))]
+            },
+            |it: &Item, sk: &mut Sink| {
+                sk.count("frames", 2);
+                let (bi, p) = plan[(it.idx / nv) as usize];
+                let v = vals[(it.idx % nv) as usize];
+                let mut m = bases[bi].bytes.clone();
+                m[p] = (v >> 8) as u8;
+                m[p + 1] = v as u8;
+                let name = bases[bi].name;
+                let a = canon_checked(name, &m, it.outs[0].reply.as_deref(), &ctx_of(&f4, false));
+                let b = canon_checked(name, &m, it.outs[1].reply.as_deref(), &ctx_of(&f6, false));
+                if !same(&a, &b) {
+                    sk.violation(Violation {
+                        prop: "C19".into(),
+                        key: format!("version-dependence:udp:{}", name),
+                        what: format!("payload '{}' with bytes {}..{} set to {:04x}: over IPv4 {} / over IPv6 {}", name, p, p + 1, v, a, b),
+                        cfg: cfgv.clone(),
+                        cmds: it.cmds.to_vec(),
+                        idx: it.idx,
+                        stage: "version-differential-words".into(),
+                    });
+                }
+            },
+            &mut rep.sink,
+        );
+        rep.stage("version-differential-words", "selected payloads x every 16-bit word position (both alignments) x 1300 values (thorough: all 65536 over the first 64 positions), each sent over IPv4 and over IPv6: same canonical answer", total, t0);
+    }
     // soak: 70 000 datagrams into ONE responder process (round robin over the payloads, running
     // source ports, alternating IP version): every canonical answer still equals the reference
     {
